@@ -22,7 +22,7 @@ func VerifC09Client() {
 	vals := vItem{":x": vS("x")}
 	var err error
 	var panicked bool
-	switch nd.Choice("entry", 6) {
+	switch nd.Choice("entry", 8) {
 	case 0:
 		e := bad[nd.Choice("text", len(bad))]
 		err, panicked = vCatch(func() error {
@@ -65,6 +65,21 @@ func VerifC09Client() {
 			return e2
 		})
 		nd.Assert(err != nil || panicked, "C09-client-scan-filter-rejected ["+e+"]")
+	case 6: // through an index none of the items belongs to: no item ever reaches the filter
+		nd.Assert(AddIndex(vCtx, c, vTbl, vIdx, "g", "") == nil, "setup-addindex")
+		e := bad[nd.Choice("text", len(bad))]
+		err, panicked = vCatch(func() error {
+			_, e2 := c.Scan(vCtx, &dynamodb.ScanInput{TableName: tbl, IndexName: aws.String(vIdx), FilterExpression: aws.String(e), ExpressionAttributeValues: vals})
+			return e2
+		})
+		nd.Assert(err != nil || panicked, "C09-client-index-scan-filter-rejected ["+e+"]")
+	case 7: // resumed behind the last item: nothing is visited
+		e := bad[nd.Choice("text", len(bad))]
+		err, panicked = vCatch(func() error {
+			_, e2 := c.Scan(vCtx, &dynamodb.ScanInput{TableName: tbl, FilterExpression: aws.String(e), ExpressionAttributeValues: vals, ExclusiveStartKey: vItem{"p": vS("k")}})
+			return e2
+		})
+		nd.Assert(err != nil || panicked, "C09-client-resumed-scan-filter-rejected ["+e+"]")
 	}
 	nd.Reach("end")
 }
